@@ -3,7 +3,7 @@ CONSTANTS
   WithPermuted = FALSE
   FullStart = FALSE
   MaxViol = 1
-  Faults = {"serFail", "deFail", "deCorrupt", "deDropsHidden", "jsonSloppy", "jsonDiscrete", "eqSubset", "eqNotReflexive", "eqPanics", "nondetFit"}
+  Faults = {"serFail", "deFail", "deCorrupt", "deDropsHidden", "deDropsAux", "jsonSloppy", "jsonDiscrete", "eqSubset", "eqNotReflexive", "eqPanics", "nondetFit"}
 SPECIFICATION Spec
 INVARIANT InvSound
 INVARIANT InvBlame
